@@ -242,7 +242,7 @@ def node_run(arg):
                 os._exit(3)
 
     seam = storage.Seam(D, chunk=job.get("chunk", 65536), crash=step.get("crash"),
-                        enospc_after=step.get("enospc"), gate=gate)
+                        enospc_after=step.get("enospc"), gate=gate, oserr=step.get("oserr"))
     load_log = []
     real_loadb = hyperscan.loadb
 
@@ -308,7 +308,9 @@ def node_run(arg):
         out["texts"] = _eval_texts(tok, job["texts"], bool(step.get("full")))
         # a process often builds the tokenizer more than once (per request, per
         # worker thread): every further instance on the same directory must agree
-        for _ in range(int(step.get("instances", 1)) - 1):
+        # (not in a lifetime with an injected OS error: the error would be the
+        # further instance's and be taken for a tokenizing failure)
+        for _ in range(0 if step.get("oserr") else int(step.get("instances", 1)) - 1):
             tok2 = HyperscanTokenizer(extractors=exts, cache_dir=D)
             again = _eval_texts(tok2, job["texts"][:4], False)
             for a, b in zip(again, out["texts"]):
@@ -331,6 +333,9 @@ def node_run(arg):
     except OSError as ex:
         if ex.errno == errno.ENOSPC and step.get("enospc") is not None:
             out["status"] = "enospc"
+        elif step.get("oserr") and getattr(ex, "injected_by_simulator", False):
+            out["status"] = "enospc"
+            out["envfault"] = step["oserr"]["errno"]
         else:
             out.update(status="raised", exc=type(ex).__name__, tb=traceback.format_exc()[-2000:],
                        where="construct")
@@ -344,6 +349,9 @@ def node_run(arg):
         if step.get("enospc") is not None and any(
                 isinstance(c, OSError) and c.errno == errno.ENOSPC for c in chain):
             out["status"] = "enospc"
+        elif step.get("oserr") and any(getattr(c, "injected_by_simulator", False) for c in chain):
+            out["status"] = "enospc"
+            out["envfault"] = step["oserr"]["errno"]
         else:
             out.update(status="raised", exc=type(ex).__name__, tb=traceback.format_exc()[-2000:],
                        where="construct")
@@ -494,6 +502,29 @@ def apply_fault(D, f, target_name=None):
         eff["at"] = k
     elif kind == "lose_file":
         os.unlink(p)
+        eff["effective"] = True
+        return eff
+    elif kind in ("as_dir", "dangling_link", "link_loop", "link_moved", "link_dir"):
+        # the entry with the database's name is no longer a regular file: a
+        # directory, a link to nowhere (whose target's directory is missing too,
+        # so it cannot be created through the link), a link to itself, a link
+        # to the intact database moved elsewhere, a link to a directory
+        side = D.rstrip("/") + ".side"
+        os.makedirs(side, exist_ok=True)
+        moved = os.path.join(side, os.path.basename(p))
+        if kind == "link_moved":
+            os.replace(p, moved)
+            os.symlink(moved, p)
+        else:
+            os.unlink(p)
+            if kind == "as_dir":
+                os.mkdir(p)
+            elif kind == "dangling_link":
+                os.symlink(os.path.join(side, "missing", "db"), p)
+            elif kind == "link_loop":
+                os.symlink(p, p)
+            else:
+                os.symlink(side, p)
         eff["effective"] = True
         return eff
     elif kind == "flip":
@@ -670,6 +701,7 @@ def new_stats():
             "out_of_domain": 0, "cits_compared": 0, "ref_raises": 0,
             "lifetimes": 0, "life_ok": 0, "life_crashed": 0, "life_enospc": 0,
             "crash_fired": Counter(), "faults": Counter(), "faults_effective": Counter(),
+            "oserr_fired": Counter(),
             "load_outcomes": Counter(), "recompiled": 0, "loaded": 0,
             "virtual_sleeps": 0, "virtual_sleep_s": 0.0,
             "partial_read_observed": 0, "pairs": 0, "pair_steps": 0, "pair_inconclusive": 0,
@@ -723,7 +755,7 @@ def exec_run(job):
 
 def _finish(out):
     st = out["stats"]
-    for k in ("crash_fired", "faults", "faults_effective", "load_outcomes", "start_states"):
+    for k in ("crash_fired", "faults", "faults_effective", "load_outcomes", "start_states", "oserr_fired"):
         st[k] = dict(st[k])
     return out
 
@@ -753,6 +785,9 @@ def _judge_life(job, step, si, kind, res, Bd, out, last_fault, start, who=None):
         return "harness"
     for lo in res.get("load", []):
         st["load_outcomes"][lo] += 1
+    for o in res.get("ops", []):
+        if isinstance(o[3], str) and o[3].startswith("injected-"):
+            st["oserr_fired"][f"{o[3][9:]}@{o[1]}"] += 1
     names = [o[1] for o in res.get("ops", [])]
     wrote = any(nm in ("write", "os.write") for nm in names)
     read = "read" in names
@@ -1072,8 +1107,10 @@ class RunGen:
         if x < 0.30:
             return {"k": "fault", "f": "zero_tail",
                     "at": g.choice([["frac", round(g.random(), 4)], ["abs", 4096], ["abs", 32], ["end", -4096]])}
-        if x < 0.36:
+        if x < 0.33:
             return {"k": "fault", "f": "lose_file"}
+        if x < 0.36:
+            return {"k": "fault", "f": g.choice(["as_dir", "dangling_link", "link_loop", "link_moved", "link_dir"])}
         if x < 0.56:
             region = g.choice(list(HEADER) + ["body", "body", "body"])
             if region == "body":
@@ -1123,8 +1160,11 @@ class RunGen:
             x = fg.random()
             if x < 0.30 and not full:
                 life["crash"] = self.crash_plan(fg)
-            elif x < 0.36:
+            elif x < 0.34:
                 life["enospc"] = fg.choice([0, 1, 31, 32, 4096, 100000])
+            elif x < 0.36:
+                life["oserr"] = {"op": fg.randrange(1, 10),
+                                 "errno": fg.choice(["EIO", "EACCES", "EMFILE", "EROFS", "EINTR"])}
             elif x < 0.41 and not full and isinstance(ext, list) and len(ext) > 8:
                 # a database of another extractor list is left in the directory
                 life["ext_alt"] = sorted(set(ext[: len(ext) // 2]) | set(self.special))
@@ -1244,6 +1284,7 @@ class RunGen:
         for n in (1, 16, 4096):
             cells.append({"f": "append", "len": n, "seed": n})
         cells += [{"f": "lose_file"}, {"f": "rm_dir"}, {"f": "empty_dir"}]
+        cells += [{"f": k} for k in ("as_dir", "dangling_link", "link_loop", "link_moved", "link_dir")]
         jobs = []
         for ci, cell in enumerate(cells):
             jobs.append({"seed": seeds.h64(root, "grid", ci), "kind": "grid", "cell": ci,
@@ -1356,6 +1397,18 @@ class RunGen:
                 jobs.append({"seed": seeds.h64(root, "grid-oldpair", nm, si), "kind": "grid",
                              "cell": f"pair-{nm}-{si}", "ext": ext, "chunk": [512, 4096, 65536][si % 3],
                              "texts": texts, "classes": {}, "steps": steps})
+        # an operating-system error (EIO, EACCES, EMFILE, EROFS, EINTR) at each of the
+        # first storage operations of a first lifetime and of a lifetime that finds a
+        # cache: that lifetime may fail with the injected error, the following must not
+        for pre_n, pre in ((0, []), (1, [{"k": "life"}]),
+                           (2, [{"k": "life"}, {"k": "fault", "f": "truncate", "at": ["frac", 0.5]}])):
+            for opk in range(1, 9):
+                en = ("EIO", "EACCES", "EMFILE", "EROFS", "EINTR")[(opk + pre_n) % 5]
+                jobs.append({"seed": seeds.h64(root, "grid-oserr", pre_n, opk), "kind": "grid",
+                             "cell": f"oserr-{pre_n}-op{opk}-{en}", "ext": ext, "chunk": 4096,
+                             "texts": texts, "classes": {},
+                             "steps": pre + [{"k": "life", "oserr": {"op": opk, "errno": en}},
+                                             {"k": "life"}, {"k": "life", "instances": 2}]})
         for n in (0, 1, 32, 4096, 100000):
             jobs.append({"seed": seeds.h64(root, "grid-enospc", n), "kind": "grid",
                          "cell": f"enospc-{n}", "ext": ext, "chunk": 4096, "texts": texts, "classes": {},
@@ -1578,6 +1631,7 @@ class Checker:
                 "crash_plans_fired": dict(sorted(t["crash_fired"].items())),
                 "lifetimes_killed_by_crash_plan": t["life_crashed"],
                 "enospc_lifetimes_failed_as_allowed": t["life_enospc"],
+                "os_errors_injected_by_errno_and_operation": dict(sorted(t["oserr_fired"].items())),
                 "concurrent_starts": t["pairs"],
                 "concurrent_release_steps": t["pair_steps"],
                 "concurrent_inconclusive": t["pair_inconclusive"],
@@ -1620,6 +1674,7 @@ ASSUMPTIONS = [
     "process death is simulated at intercepted storage operations and write-chunk boundaries; power-loss effects are file transformations between lifetimes",
     "the domain excludes non-ASCII whitespace/digits, the non-ASCII case variants of ASCII letters and -- for the 34 patterns with \\w or an unescaped dot -- non-ASCII characters inside or next to their matches",
     "a full disk is not one of the directory states the statement lists: the one lifetime into which ENOSPC was injected may fail with that error",
+    "likewise an operating-system error injected at one storage operation (EIO, EACCES, EMFILE, EROFS, EINTR): that lifetime may fail with the injected error object, every later lifetime is judged in full",
     "sampling outside the grid: a clean batch is evidence for the seeds explored",
 ]
 
